@@ -104,7 +104,11 @@ Watch watch(dispenso::ThreadPool& pool, const std::vector<int>& workers, long to
     double now = vrt::nowSeconds();
     if (now >= nextSample) {
       vrt::FutexStats fs = vrt::futexStats();
-      bool c = fs.inTimedWaitNow == N && pool.verifNumSleeping() == N && allAsleep(workers) &&
+      bool asleep = allAsleep(workers);
+      // a worker that is runnable or running (not asleep for the kernel) means the pool is still
+      // moving, however slowly on a loaded machine: not a stranded state and not a hang
+      if (!asleep) vrt::progress();
+      bool c = fs.inTimedWaitNow == N && pool.verifNumSleeping() == N && asleep &&
           g_unitsTotal.load(std::memory_order_relaxed) < total;
       if (c && (strandedSamples == 0 || fs.waitExits == lastExits)) {
         ++strandedSamples;
@@ -276,9 +280,22 @@ void runC07() {
     dispenso::ThreadPool* pool = new dispenso::ThreadPool(static_cast<size_t>(s.N));
     // one-hour backstop: nothing in this case can be rescued by the timeout
     pool->setSignalingWake(true, std::chrono::microseconds(kHourUs));
-    std::vector<int> workers = minusTids(listTids(), tidsBefore);
+    // the default-backstop generation was joined inside setSignalingWake, but a joined thread can
+    // linger in /proc for a moment: wait until exactly N live non-harness threads remain
+    std::vector<int> workers;
+    for (int attempt = 0; attempt < 2000; ++attempt) {
+      workers.clear();
+      for (int t : minusTids(listTids(), tidsBefore)) {
+        if (tidLive(t)) workers.push_back(t);
+      }
+      if (static_cast<int>(workers.size()) == s.N) break;
+      vrt::progress();
+      vrt::sleepUs(200);
+    }
 
-    bool ok = waitAllParked(*pool, workers);
+    bool ok = static_cast<int>(workers.size()) == s.N;
+    if (!ok) why = "thread census does not show exactly N workers";
+    ok = ok && waitAllParked(*pool, workers);
     // park-order shuffles
     vrt::Rng sr(shuffleSeed);
     for (int b = 0; ok && b < s.shuffleBulk; ++b) {
@@ -308,7 +325,10 @@ void runC07() {
       // an idle pool must pick this up as well; bounded by the watchdog (this is C07 itself for the
       // single-task path, which its own cases judge)
       double t0 = vrt::nowSeconds();
-      while (!done.load(std::memory_order_relaxed) && vrt::nowSeconds() - t0 < 30.0) vrt::sleepUs(50);
+      while (!done.load(std::memory_order_relaxed) && vrt::nowSeconds() - t0 < 30.0) {
+        if (!allAsleep(workers)) vrt::progress();
+        vrt::sleepUs(50);
+      }
       if (!done.load(std::memory_order_relaxed)) {
         ok = false;
         why = "shuffle task never started";
@@ -379,6 +399,7 @@ void runC07() {
           if (owner) owner->help();
           if (g_unitsTotal.load(std::memory_order_relaxed) >= total) break;
           pool->schedule([]() { vrt::progress(); }, dispenso::ForceQueuingTag());
+          vrt::progress();
           vrt::sleepUs(500);
         }
       }
